@@ -204,11 +204,23 @@ func (fs *FS) listLocked() []string {
 func (fs *FS) Names() []string { fs.mu.Lock(); defer fs.mu.Unlock(); return fs.listLocked() }
 
 func (fs *FS) Create(dir, name string, size uint64) (types.WritableFile, error) {
-	if _, _, err := fs.begin(KCreate, name, 0, int(size)); err != nil {
-		return nil, err
+	_, partial, herr := fs.begin(KCreate, name, 0, int(size))
+	if herr != nil && partial <= 0 {
+		return nil, herr
 	}
 	fs.mu.Lock()
 	defer fs.mu.Unlock()
+	if herr != nil {
+		// fault "after partial effect": the directory entry was made (as when
+		// preallocation fails with ENOSPC after open(O_CREAT|O_EXCL)) but the call fails
+		fs.Created = append(fs.Created, name)
+		if _, ok := fs.cur[name]; ok {
+			fs.CreateDup = append(fs.CreateDup, name)
+		} else {
+			fs.cur[name] = &inode{}
+		}
+		return nil, herr
+	}
 	fs.Created = append(fs.Created, name)
 	var bi, id uint64
 	if n, _ := fmt.Sscanf(name, "%020d-%016x.wal", &bi, &id); n == 2 && fs.RetiredIDs[id] {
@@ -381,16 +393,16 @@ func (h *handle) Sync() error {
 	h.ino.pending = nil
 	h.ino.synced = true
 	first := !h.synced
-	h.synced = true
 	h.fs.mu.Unlock()
 	if first {
 		if _, _, err := h.fs.begin(KSyncDir, h.name, 0, 0); err != nil {
-			// contract: the directory sync did not happen; a later Sync on this
-			// handle will not retry it (mirrors fs.File), so remember nothing.
+			// contract: the directory sync did not happen, so the next Sync on
+			// this handle has to try again
 			return err
 		}
 		h.fs.mu.Lock()
 		h.fs.syncDirLocked()
+		h.synced = true
 		h.fs.mu.Unlock()
 	}
 	return nil
